@@ -40,7 +40,8 @@ func (t *XMPPTransport) Connect() (string, error) {
 
 	t.conn, err = net.DialTimeout("tcp", t.Config.Address, time.Duration(t.Config.ConnectTimeout)*time.Second)
 	if err != nil {
-		return "", NewConnError(err, true)
+		// Not being able to reach the server (connection refused, timeout) is not a permanent condition
+		return "", NewConnError(err, false)
 	}
 	if verifEnabled {
 		t.conn = verifWrapConn(t.conn)
